@@ -303,7 +303,9 @@ class IntronGraph:
             del self.incoming_edges[i]
 
     def remove_singleton_dead_ends(self):
-        to_clean = {}
+        # both kinds of dead paths are looked for in the same (unmodified) graph, so that the result does not depend
+        # on which of the two passes meets a path first
+        dead_ends = {}
         for current_intron in sorted(self.outgoing_edges.keys()):
             if self.intron_collector.clustered_introns[current_intron] < self.params.singleton_adjacent_cov:
                 # singleton removal can only be used for high-covered introns
@@ -312,19 +314,11 @@ class IntronGraph:
             outgoing_paths = [self.signleton_dead_end(i) for i in self.outgoing_edges[current_intron]]
             if any(len(p) == 0 for p in outgoing_paths):
                 continue
-            to_clean[current_intron] = set()
+            dead_ends[current_intron] = set()
             for p in outgoing_paths:
-                to_clean[current_intron].update(p)
+                dead_ends[current_intron].update(p)
 
-        for intron in to_clean.keys():
-            self.outgoing_edges[intron] = set()
-            for i in to_clean[intron]:
-                if i in self.outgoing_edges:
-                    del self.outgoing_edges[i]
-                if i in self.incoming_edges:
-                    del self.incoming_edges[i]
-
-        to_clean = {}
+        dead_starts = {}
         for current_intron in sorted(self.incoming_edges.keys()):
             if self.intron_collector.clustered_introns[current_intron] < self.params.singleton_adjacent_cov:
                 # singleton removal can only be used for high-covered introns
@@ -332,17 +326,27 @@ class IntronGraph:
             incoming_paths = [self.signleton_dead_start(i) for i in self.incoming_edges[current_intron]]
             if any(len(p) == 0 for p in incoming_paths):
                 continue
-            to_clean[current_intron] = set()
+            dead_starts[current_intron] = set()
             for p in incoming_paths:
-                to_clean[current_intron].update(p)
+                dead_starts[current_intron].update(p)
 
-        for intron in to_clean.keys():
+        removed_introns = set()
+        for intron in dead_ends.keys():
+            self.outgoing_edges[intron] = set()
+            removed_introns.update(dead_ends[intron])
+        for intron in dead_starts.keys():
             self.incoming_edges[intron] = set()
-            for i in to_clean[intron]:
-                if i in self.outgoing_edges:
-                    del self.outgoing_edges[i]
-                if i in self.incoming_edges:
-                    del self.incoming_edges[i]
+            removed_introns.update(dead_starts[intron])
+
+        for i in removed_introns:
+            if i in self.outgoing_edges:
+                del self.outgoing_edges[i]
+            if i in self.incoming_edges:
+                del self.incoming_edges[i]
+        # no remaining intron keeps a removed one as its neighbour
+        for edges in (self.outgoing_edges, self.incoming_edges):
+            for intron in edges.keys():
+                edges[intron].difference_update(removed_introns)
 
     def remove_isolates(self):
         to_remove = set()
